@@ -2309,7 +2309,14 @@ def import_rules(ctx, prefix):
     arm = d.arm("Function")
     names = set()
     if arm:
-        for n in sir.walk(arm.body):
+        nodes_ = list(sir.walk(arm.body))
+        # the names may be classified by a private helper the arm calls (`ImportCondition::from_function_name(xs)`)
+        for n in list(nodes_):
+            if n.get("k") in ("call", "mcall") and sir.call_name(n):
+                for g in ctx.sc.fns:
+                    if g.name == sir.call_name(n) and g.body and g.crate == f.crate and g is not f and not cm._has_dispatch(g) and len(g.body.get("stmts", [])) <= 12:
+                        nodes_ += list(sir.walk(g.body))
+        for n in nodes_:
             if n.get("k") == "p_lit" and n["e"].get("t") == "str":
                 names.add(n["e"]["v"])
             if n.get("k") == "lit" and n.get("t") == "str":
